@@ -59,7 +59,7 @@ def run_history(ctx, hid, seed, tier, want_reads=False, corrupt_meta=True):
                 trace = os.path.join(w.base, 'trace-%d.txt' % k)
                 shim_env = {'TRACE': trace, 'WATCH': ':'.join(os.path.realpath(i) for i in w.items)}
             r = w.backup(shim_env=shim_env)
-            if garbled:
+            if garbled and os.path.isdir(os.path.dirname(garbled[2])):      # (the group may have been rotated away)
                 with open(garbled[2], 'wb') as f:
                     f.write(garbled[3])
             post = w.decode_storage(with_entries=True)
